@@ -6,6 +6,8 @@
 use crate::fw::*;
 use pallas_codec::minicbor::{data::Type, Decoder};
 use pallas_crypto::hash::Hasher;
+use pallas_codec::{minicbor, utils::KeepRaw};
+use pallas_primitives::alonzo::{NativeScript, PlutusData};
 use pallas_primitives::conway::DatumOption;
 use pallas_traverse::{Era, MultiEraBlock, MultiEraHeader, MultiEraTx, OriginalHash};
 
@@ -78,8 +80,62 @@ pub fn generate(g: &mut Gen) {
     }
     for (t, h) in &headers { g.case(vec![format!("header {} {}", t, hex(h))]); }
     for (era, t) in &txs { g.case(tx_ops(era, t)); }
+    // stand-alone datums / native scripts sliced out of the corpus transactions (byte level)
+    let mut datums: Vec<Vec<u8>> = vec![];
+    let mut scripts: Vec<Vec<u8>> = vec![];
+    for (era, t) in &txs {
+        if *era == "byron" { continue; }
+        let Some(ch) = fx::children(t, 0) else { continue };
+        if ch.len() != 4 { continue; }
+        for (key, dst) in [(4u64, &mut datums), (1u64, &mut scripts)] {
+            if let Some(v) = map_value(t, ch[1].0, key) {
+                if let Some(items) = set_items(t, v.0) { for s in items { if s.1 - s.0 < 4000 { dst.push(t[s.0..s.1].to_vec()); } } }
+            }
+        }
+    }
+    datums.sort(); datums.dedup(); scripts.sort(); scripts.dedup();
+    if !g.thorough() { datums.truncate(40); scripts.truncate(40); }
+    for d in &datums { g.case(vec![format!("datum {}", hex(d))]); }
+    for d in &scripts { g.case(vec![format!("script {}", hex(d))]); }
     // structural mutants pallas still decodes
     let mut rng = g.rng.fork();
+    // (a) systematic: every single-site mutant (first sites) of every stand-alone datum / script
+    let site_lim = if g.thorough() { 64 } else { 8 };
+    for (kind, name) in [(0usize, "to-indef"), (1, "to-def"), (2, "widen-head"), (4, "chunk-string")] {
+        for d in &datums {
+            for m in cst::single_site_mutants(d, kind, site_lim, &mut rng) {
+                if minicbor::decode::<KeepRaw<PlutusData>>(&m).is_ok() { g.case(vec![format!("note {name}"), format!("datum {}", hex(&m))]); }
+            }
+        }
+        for d in &scripts {
+            for m in cst::single_site_mutants(d, kind, site_lim, &mut rng) {
+                if minicbor::decode::<KeepRaw<NativeScript>>(&m).is_ok() { g.case(vec![format!("note {name}"), format!("script {}", hex(&m))]); }
+            }
+        }
+    }
+    // (b) systematic: inline datums — splice pool datums (and their single-site to-indef / widen-head
+    //     mutants) into the first `#6.24(bytes)` site of corpus transactions that have one
+    let mut hosts: Vec<&(&'static str, Vec<u8>)> = txs.iter().filter(|(e, t)| (*e == "babbage" || *e == "conway") && t.len() < 6000 && cst::wrap_sites(t) > 0).collect();
+    hosts.truncate(if g.thorough() { 12 } else { 3 });
+    let mut pool: Vec<Vec<u8>> = datums.iter().filter(|d| d.len() < 400).take(if g.thorough() { 40 } else { 10 }).cloned().collect();
+    pool.extend(datums.iter().filter(|d| d.len() < 600 && d.windows(2).any(|w| w == [0xd8, 0x66])).take(6).cloned());
+    for (era, host) in hosts {
+        let e = era_of(era).unwrap();
+        for d in &pool {
+            let mut variants = vec![d.clone()];
+            variants.extend(cst::single_site_mutants(d, 0, 4, &mut rng));
+            variants.extend(cst::single_site_mutants(d, 2, 2, &mut rng));
+            for v in variants {
+                if let Some(t) = cst::splice_wrapped(host, 0, &v) {
+                    if MultiEraTx::decode_for_era(e, &t).is_ok() {
+                        let mut ops = vec!["note inline-splice".to_string()];
+                        ops.extend(tx_ops(era, &t));
+                        g.case(ops);
+                    }
+                }
+            }
+        }
+    }
     let mut round = 0;
     while made < budget && round < 50 {
         round += 1;
@@ -91,6 +147,18 @@ pub fn generate(g: &mut Gen) {
                 let mut ops = vec![format!("note {}", kinds.join("+"))];
                 ops.extend(tx_ops(era, &m));
                 g.case(ops); made += 1;
+            }
+        }
+        for d in &datums {
+            if made >= budget { break; }
+            for (m, kinds) in mutants(&mut rng, d, 1, 4, |m| minicbor::decode::<KeepRaw<PlutusData>>(m).is_ok()) {
+                g.case(vec![format!("note {}", kinds.join("+")), format!("datum {}", hex(&m))]); made += 1;
+            }
+        }
+        for d in &scripts {
+            if made >= budget { break; }
+            for (m, kinds) in mutants(&mut rng, d, 1, 4, |m| minicbor::decode::<KeepRaw<NativeScript>>(m).is_ok()) {
+                g.case(vec![format!("note {}", kinds.join("+")), format!("script {}", hex(&m))]); made += 1;
             }
         }
         for (tag, h) in &headers {
@@ -244,6 +312,25 @@ pub fn run_case(case: &Case, out: &mut Out) {
                         if want != h { out.viol("header-hash-not-over-wire-bytes", format!("wrapper tag {} hash() {} expected {}", t, hex(&h), hex(&want))); }
                         if raw != span { out.viol("header-raw-cbor", "cbor() differs from the wire bytes of the header".to_string()); }
                         out.cov(format!("header-tag-{}", t));
+                        out.nontrivial();
+                        out.ok(format!("hash={}", hex(&h)));
+                    }
+                    Some(None) => out.err("decode"),
+                    None => out.panic(),
+                }
+            }
+            "datum" | "script" => {
+                let Some(b) = op.get(1).and_then(|s| unhex(s)) else { out.reply("bad-op".into()); continue };
+                let bb = b.clone();
+                let is_datum = op[0] == "datum";
+                let r = guard(move || if is_datum { minicbor::decode::<KeepRaw<PlutusData>>(&bb).ok().map(|d| d.original_hash().to_vec()) }
+                                      else { minicbor::decode::<KeepRaw<NativeScript>>(&bb).ok().map(|d| d.original_hash().to_vec()) });
+                match r {
+                    Some(Some(h)) => {
+                        let end = fx::item_end(&b, 0).unwrap_or(b.len());
+                        let want = if is_datum { h256(&b[..end]) } else { Hasher::<224>::hash_tagged(&b[..end], 0).to_vec() };
+                        if want != h { out.viol(format!("{}-original-hash-not-over-wire-bytes", op[0]), format!("original_hash() {} expected {}", hex(&h), hex(&want))); }
+                        out.cov(format!("standalone-{}", op[0]));
                         out.nontrivial();
                         out.ok(format!("hash={}", hex(&h)));
                     }
